@@ -53,7 +53,7 @@ structure St where
   reload *without* a preceding flush (SIGHUP, `config reload`) reads.  For users.conf the records
   that were written are kept (the text is `C16.dumpUsers` of them). -/
   usaved : Option C16.UsersDb := none
-  cfile : Option Str := none
+  csaved : Option C16.ChannelsDb := none
   ifile : Option Str := none
 deriving Repr
 
@@ -107,7 +107,7 @@ def flushU (st : St) : St :=
   { st with usaved := some { users := st.users, nextId := st.nextId } }
 
 /-- `channels.flush()` (the end of setChannel) -/
-def flushC (st : St) : St := { st with cfile := some (C16.dumpChannels st.channels) }
+def flushC (st : St) : St := { st with csaved := some st.channels }
 
 /-- the clash test of `UsersDictionary.setUser` (other users' logins count) -/
 def St.clash (st : St) (id : Nat) (u : C16.User) : Bool :=
@@ -303,14 +303,14 @@ def reloadUsersFrom (cfg : Cfg) (st : St) (db : C16.UsersDb) : St :=
   let st1 := { st with users := ru.1.db.users, nextId := ru.1.db.nextId, auth := [], cu := ru.1.cu, usaved := some db }
   if ru.2.isNone then flushU st1 else st1
 
-def reloadChannelsFrom (cfg : Cfg) (st : St) (text : Str) : St :=
-  let rc := C16.loadChannels (envOf cfg) st.cname text
-  let st1 := { st with channels := rc.1.db, cname := rc.1.cname, cfile := some text }
+def reloadChannelsFrom (cfg : Cfg) (st : St) (chans : C16.ChannelsDb) : St :=
+  let rc := C16.loadChannels (envOf cfg) st.cname (C16.dumpChannels chans)
+  let st1 := { st with channels := rc.1.db, cname := rc.1.cname, csaved := some chans }
   if rc.2.isNone then flushC st1 else st1
 
 def flushReloadSt (cfg : Cfg) (st : St) : St :=
   let st1 := reloadUsersFrom cfg st { users := st.users, nextId := st.nextId }
-  let st2 := reloadChannelsFrom cfg st1 (C16.dumpChannels st1.channels)
+  let st2 := reloadChannelsFrom cfg st1 st1.channels
   let itext := C16.dumpIgnores (envOf cfg) st2.ignores
   { st2 with ignores := C16.loadIgnores itext, ifile := some itext }
 
@@ -328,7 +328,7 @@ def reloadI (st : St) : St :=
   | none => st
 
 def reloadC (cfg : Cfg) (st : St) : St :=
-  match st.cfile with
+  match st.csaved with
   | some t => reloadChannelsFrom cfg st t
   | none => { st with channels := [] }
 
@@ -635,6 +635,59 @@ def step (cfg : Cfg) (st : St) (pfx : Str) (c : Cmd) : St × Bool :=
   | _ =>
     if st.ignored pfx then (st, false)          -- Owner.doPrivmsg drops the message
     else if allowed st pfx c then body cfg st pfx c else (st, false)
+
+/-! ## the order in which capability sets were written
+
+`CapabilitySet` is a Python `set`: the order in which `preserve` writes its elements is decided
+by string hashes and the history of the set, not by anything modelled here.  For a set that
+holds a capability together with its inverse (`--foo` with `-foo`) the order decides what a
+later load makes of the file (`C16.inverse_pair_some_order_loses`).  The order is therefore an
+*input*: an environment event tells in which order the saved capability sets stand in the files.
+It is accepted only as far as it is a permutation of what the model has saved. -/
+
+/-- replace `caps` by the order given for it, if that is a permutation of it -/
+def permCaps (ord : Option (List Str)) (caps : List Str) : List Str :=
+  match ord with
+  | some c => if c.isPerm caps then c else caps
+  | none => caps
+
+/-- the event: `uo` gives orders for accounts (by id) of the saved users file, `co` for channels
+(by name) of the saved channels file -/
+def St.fileOrder (st : St) (uo : List (Nat × List Str)) (co : List (Str × List Str)) : St :=
+  { st with
+    usaved := st.usaved.map (fun db =>
+      { db with users := db.users.map (fun p => (p.1, { p.2 with caps := permCaps (C16.dictGet p.1 uo) p.2.caps })) }),
+    csaved := st.csaved.map (fun l =>
+      l.map (fun p => (p.1, { p.2 with caps := permCaps (C16.dictGet p.1 co) p.2.caps }))) }
+
+/-- every order given names a saved record and is a permutation of its capability list (what the
+driver reports back: a `false` here is a disagreement between model and implementation) -/
+def St.fileOrderOk (st : St) (uo : List (Nat × List Str)) (co : List (Str × List Str)) : Bool :=
+  uo.all (fun o => match st.usaved with
+    | some db => (match C16.dictGet o.1 db.users with
+        | some u => o.2.isPerm u.caps
+        | none => false)
+    | none => false) &&
+  co.all (fun o => match st.csaved with
+    | some l => (match C16.dictGet o.1 l with
+        | some c => o.2.isPerm c.caps
+        | none => false)
+    | none => false)
+
+/-- a history event: a message from `pfx` carrying a command (or one of the reload/flush events
+of `Cmd`), or the environment fixing the written order of capability sets -/
+inductive Ev
+  | cmd (pfx : Str) (c : Cmd)
+  | order (uo : List (Nat × List Str)) (co : List (Str × List Str))
+deriving Repr
+
+def stepEv (cfg : Cfg) (st : St) : Ev → St
+  | .cmd pfx c => (step cfg st pfx c).1
+  | .order uo co => st.fileOrder uo co
+
+def runEv (cfg : Cfg) (st : St) : List Ev → St
+  | [] => st
+  | e :: rest => runEv cfg (stepEv cfg st e) rest
 
 /-- accounts holding the literal `owner` capability -/
 def owners (st : St) : List Nat := (st.users.filter (fun p => p.2.caps.contains C03.ownerS)).map (·.1)
